@@ -1,12 +1,17 @@
 import QuickAdd.Model.Types
+import QuickAdd.Lemmas.StrInj
 /-!
 # C18 — resolutions compare and hash by value, independent of the character span
 
 All statements are about the model's `pyEq` / `hashKey`, which iterate over the **generated** attribute lists
 (`Gen.timeAttrs`, `Gen.intervalAttrs`, `Gen.durationAttrs` = the `_attrs` of the live classes): a change of an
 attribute list in the source changes the data these proofs are checked against.
-Partial: injectivity of the bound-free text form and the parse/print round trip are decided by the `types`
-correspondence and the sweep over the field product, not by a theorem (string formatting lemmas are not built).
+`text_form_injective`: **the bound-free text form is injective on values** — two printable resolutions (present numbers
+non-negative, part of day a key of the table, durations non-negative) with the same `nb_str` are the same value
+(`Lemmas/StrInj`: the separators split the text uniquely because a field is digits or `X`; zero padding does not lose the
+number; a printed time ends at its only `)`; unit names differ).
+Partial: parsing the text form back (`from_str`, a `re` pattern) is not modelled; the round trip is decided by the `types`
+correspondence and the sweep over the field product.
 -/
 namespace QuickAdd.C18
 open QuickAdd
@@ -75,6 +80,62 @@ theorem pyEq_isVal (a b : Art) (h : a.pyEq b = true) : a.isVal = b.isVal := by
   obtain ⟨va, sa, ea⟩ := a
   obtain ⟨vb, sb, eb⟩ := b
   cases va <;> cases vb <;> simp_all [Art.pyEq, Art.isVal]
+
+/-! ### the text form -/
+/-- values the text form is claimed injective on -/
+def PrintableV : Val → Prop
+  | .tok _ => False
+  | .time t => t.Printable
+  | .interval f t => (∀ x, f = some x → x.Printable) ∧ (∀ x, t = some x → x.Printable)
+  | .duration n _ => 0 ≤ n
+
+/-- every well-formed resolution with a non-negative year is printable -/
+theorem printable_of_ok (t : Time) (h : t.Ok) (hy : ∀ y, t.year = some y → 0 ≤ y) : t.Printable := ⟨h.nonNeg hy, h.pod⟩
+
+theorem time_text_injective (a b : Time) (ha : a.Printable) (hb : b.Printable) (h : a.str = b.str) : a = b :=
+  time_str_injective a b ha.1 hb.1 ha.2 hb.2 h
+
+/-- **the bound-free text form (`nb_str`) is injective on values** -/
+theorem text_form_injective (v w : Val) (hv : PrintableV v) (hw : PrintableV w) (h : v.nbStr = w.nbStr) : v = w := by
+  have hl := congrArg String.toList h
+  have ts : ∀ s : String, toString s = s := fun _ => rfl
+  have l1 : "[]{".toList = ['[', ']', '{'] := by decide
+  have l2 : "}".toList = ['}'] := by decide
+  have c1 : "Time".toList = ['T', 'i', 'm', 'e'] := by decide
+  have c2 : "Interval".toList = ['I', 'n', 't', 'e', 'r', 'v', 'a', 'l'] := by decide
+  have c3 : "Duration".toList = ['D', 'u', 'r', 'a', 't', 'i', 'o', 'n'] := by decide
+  simp only [Val.nbStr, ts, String.toList_append, l1, l2, List.append_assoc, List.cons_append, List.nil_append] at hl
+  cases v with
+  | tok _ => exact False.elim hv
+  | time a =>
+    cases w with
+    | tok _ => exact False.elim hw
+    | time b =>
+      simp only [Val.cls, c1, List.cons_append, List.nil_append, List.cons.injEq, true_and] at hl
+      have : a.str.toList = b.str.toList := List.append_cancel_right hl
+      rw [time_text_injective a b hv hw (String.toList_inj.mp this)]
+    | interval _ _ => simp [Val.cls, c1, c2] at hl
+    | duration _ _ => simp [Val.cls, c1, c3] at hl
+  | interval f t =>
+    cases w with
+    | tok _ => exact False.elim hw
+    | time _ => simp [Val.cls, c1, c2] at hl
+    | interval f' t' =>
+      simp only [Val.cls, c2, List.cons_append, List.nil_append, List.cons.injEq, true_and] at hl
+      have : (Val.interval f t).str.toList = (Val.interval f' t').str.toList := List.append_cancel_right hl
+      obtain ⟨e1, e2⟩ := interval_str_injective f t f' t' hv.1 hv.2 hw.1 hw.2 (String.toList_inj.mp this)
+      rw [e1, e2]
+    | duration _ _ => simp [Val.cls, c2, c3] at hl
+  | duration n u =>
+    cases w with
+    | tok _ => exact False.elim hw
+    | time _ => simp [Val.cls, c1, c3] at hl
+    | interval _ _ => simp [Val.cls, c2, c3] at hl
+    | duration m x =>
+      simp only [Val.cls, c3, List.cons_append, List.nil_append, List.cons.injEq, true_and] at hl
+      have : (Val.duration n u).str.toList = (Val.duration m x).str.toList := List.append_cancel_right hl
+      obtain ⟨e1, e2⟩ := duration_str_injective n m u x hv hw (String.toList_inj.mp this)
+      rw [e1, e2]
 
 example : (⟨.duration 1 .days, 0, 5⟩ : Art).pyEq ⟨.duration 2 .hours, 0, 5⟩ = false := by decide
 example : (⟨.time { dow := some 0 }, 0, 5⟩ : Art).pyEq ⟨.time {}, 0, 5⟩ = false := by decide
